@@ -3,4 +3,5 @@ pub mod block;
 pub mod codec;
 pub mod packet;
 pub mod registries;
+pub mod subject;
 pub mod uint;
